@@ -32,6 +32,10 @@ def main(tier):
             t = r.get("term")
             # second point cuts the literal; a literal with a point is Float, without is Integer (via integer_or_float)
             cut = any(M(("if", ("op", "and", "bool", ("var", "?fl"), ("call", "<&char as cmp::PartialEq>::eq", "_", ("char", "."))), ("break",), "_"), s) is not None for s in subterms(t)) if t else False
+            tbl = getattr(m, "scan_table", None)
+            if tbl is not None:
+                from ..scanners import table_verdict
+                cut = table_verdict(tbl, True, True)[2] is True      # read off the loop's transition table: after the first '.', a '.' ends the literal
             run.ob(cut, "number|second-point", "C19 eval_number: a second point ends the literal", w, "no `if floating && c == '.' { break }` in the scanner")
             sel = None
             for s in subterms(t or ()):
